@@ -486,6 +486,10 @@ def run(ctx):
         ctx.note("%s:%s" % (kind, "domain" if dom else "outside"))
         ctx.note("body:" + ("empty" if not body else case["body"][0] + (":utf8" if is_utf8(body) else ":binary")))
         ctx.note("headers:%d" % len(case["headers"]))
+        if dom:
+            ctype = {k.lower(): v for k, v in case["headers"]}.get("content-type", "")
+            natural = "bytes" if ctype.startswith("application") or not is_utf8(body) else "str"
+            ctx.note("body-presentation:" + ("same-type" if natural == case["body"][0] else "str<->bytes by Content-Type rule"))
         report(case, oracle_roundtrip(http, case))
         data = impl_format(http, case)
         ask(fmt_line(case), lambda a, c=case, d=data: compare(c, "format_%s bytes" % c["kind"],
